@@ -35,12 +35,19 @@ def esc_q(text, quote="'"):
         quote, "\\" + quote) + quote
 
 
+def quotable(text):
+    """README documents quote demarcation for dots, separators and spaces;
+    brackets and parentheses keep their meaning inside quotes, so text
+    holding them (or nothing at all) is always backslash-escaped."""
+    return bool(text) and not any(ch in "[]()\\'\"" for ch in text)
+
+
 def render_seg(seg, sep, style="bs"):
     """-> (text, keyish) keyish: needs a separator before it."""
     kind = seg[0]
     if kind == "key":
         text = seg[1]
-        if style == "bs":
+        if style == "bs" or not quotable(text):
             return esc_bs(text, sep), True
         return esc_q(text), True
     if kind == "idx":
@@ -66,14 +73,16 @@ def render_seg(seg, sep, style="bs"):
                     delim = cand
                     break
             ttxt = delim + term + delim
-        elif style == "bs":
+        elif style == "bs" or not quotable(term):
             ttxt = esc_bs(term, "", "")
         else:
             ttxt = esc_q(term, '"')
         return "[%s%s%s%s]" % (atxt, "!" if inv else "", op, ttxt), False
     if kind == "kw":
         _, name, params, inv = seg
-        ptxt = ", ".join(esc_bs(p, "", ",") for p in params)
+        ptxt = ", ".join(
+            esc_q(p, '"') if (style != "bs" and quotable(p))
+            else esc_bs(p, "", ",") for p in params)
         return "[%s%s(%s)]" % ("!" if inv else "", name, ptxt), False
     if kind == "coll":
         _, op, inner = seg
